@@ -34,6 +34,8 @@ pub struct SeedSpec {
     pub boundary: u64,
     pub eps: u64,
     pub free_slots: usize,
+    /// an extra filler value of this many bytes, so that value offsets are beyond 1 KiB (0 = none)
+    pub val_pad: u64,
 }
 
 /// steps (run by the real code) that bring the end of the chosen file to `boundary - eps`, with
@@ -72,6 +74,11 @@ pub fn seed_steps(kt: KtId, n: u64, filler_bucket: u64, spec: &SeedSpec, seed: u
         to_free.push(k.clone());
         let first = live.is_empty();
         put(k, free_val_lens[i % free_val_lens.len()], &mut steps, &mut live, &mut val_end, &mut key_end, first);
+    }
+    if spec.val_pad > 0 {
+        let k = next_key(small_key_len, &mut used);
+        let first = live.is_empty();
+        put(k, spec.val_pad, &mut steps, &mut live, &mut val_end, &mut key_end, first);
     }
     // 2. alignment + big filler
     let cls = [16u64, 24, 32, 48, 64, 80, 96, 112];
@@ -209,7 +216,7 @@ pub fn seeded_runs(ctx: &mut Ctx, prop: &str, oracles: u32, clauses: u32, quick_
             for file in ["val", "key", "both"] {
                 for eps in [0u64, 16, 48] {
                     for free_slots in [0usize, 2] {
-                        specs.push(SeedSpec { file, boundary: b, eps, free_slots });
+                        specs.push(SeedSpec { file, boundary: b, eps, free_slots, val_pad: 0 });
                     }
                 }
             }
@@ -217,12 +224,17 @@ pub fn seeded_runs(ctx: &mut Ctx, prop: &str, oracles: u32, clauses: u32, quick_
         seeded_group(ctx, prop, oracles, clauses, 3, vec![3, 20, 200], &specs, 400_000, 60.0);
     } else {
         for (file, eps, free_slots) in [("val", 16u64, 0usize), ("val", 0, 2), ("key", 16, 0), ("key", 0, 2), ("both", 16, 2)] {
-            specs.push(SeedSpec { file, boundary: 16 * 1024, eps, free_slots });
+            specs.push(SeedSpec { file, boundary: 16 * 1024, eps, free_slots, val_pad: 0 });
         }
         seeded_group(ctx, prop, oracles, clauses, 2, vec![3, 200], &specs, 60_000, 10.0);
         if !quick_only {
-            let specs3 = vec![SeedSpec { file: "val", boundary: 16 * 1024, eps: 16, free_slots: 0 }, SeedSpec { file: "key", boundary: 16 * 1024, eps: 16, free_slots: 0 }];
-            seeded_group(ctx, prop, oracles, clauses, 3, vec![3, 200], &specs3, 60_000, 6.0);
+            // chain links that need three bytes on disk (key file beyond 128 KiB) while value offsets need two
+            let specs128 = vec![SeedSpec { file: "key", boundary: 128 * 1024, eps: 0, free_slots: 2, val_pad: 1200 }];
+            seeded_group(ctx, prop, oracles, clauses, 2, vec![3, 200], &specs128, 30_000, 8.0);
+        }
+        if !quick_only {
+            let specs3 = vec![SeedSpec { file: "val", boundary: 16 * 1024, eps: 16, free_slots: 0 , val_pad: 0}, SeedSpec { file: "key", boundary: 16 * 1024, eps: 16, free_slots: 0 , val_pad: 0}];
+            seeded_group(ctx, prop, oracles, clauses, 3, vec![3, 200], &specs3, 60_000, 4.0);
         }
     }
 }
@@ -291,7 +303,7 @@ pub fn c08(tier: &str, seed: u64) -> i32 {
         cfg.oracles = o;
         cfg.clauses = clauses;
         let starts: Vec<Start> = empty_start(&mut ctx, &cfg).into_iter().collect();
-        let (cap, secs) = if thorough { (1_500_000, 300.0) } else { (150_000, 7.0) };
+        let (cap, secs) = if thorough { (1_500_000, 300.0) } else { (150_000, 5.0) };
         run_closure(&mut ctx, &format!("{} from the empty map [bytes]", a.label), &cfg, starts, cap, secs);
     }
     {
@@ -301,7 +313,17 @@ pub fn c08(tier: &str, seed: u64) -> i32 {
         cfg.oracles = o;
         cfg.clauses = clauses;
         let starts: Vec<Start> = empty_start(&mut ctx, &cfg).into_iter().collect();
-        let (cap, secs) = if thorough { (1_000_000, 200.0) } else { (100_000, 5.0) };
+        let (cap, secs) = if thorough { (1_000_000, 200.0) } else { (100_000, 3.5) };
+        run_closure(&mut ctx, &format!("{} from the empty map [bytes]", a.label), &cfg, starts, cap, secs);
+    }
+    {
+        // overwrites among sizes of the shared large list (first-fit reuse while chains are re-linked)
+        let a = Alpha { label: "2 colliding keys on class edges x {20,1000,1500,3000}", colliding: vec![11, 10], other: vec![], vals: vec![20, 1000, 1500, 3000] };
+        let mut cfg = make_cfg("C08", KtId::Bytes, 8, &a, seed);
+        cfg.oracles = o;
+        cfg.clauses = clauses;
+        let starts: Vec<Start> = empty_start(&mut ctx, &cfg).into_iter().collect();
+        let (cap, secs) = if thorough { (1_000_000, 200.0) } else { (100_000, 4.0) };
         run_closure(&mut ctx, &format!("{} from the empty map [bytes]", a.label), &cfg, starts, cap, secs);
     }
     if thorough {
